@@ -385,7 +385,7 @@ def _check_ipf(prog: Program, res: Result, ma: hc.MonthAnalysis):
                     res.violation("R07.2", "ipf-default", prog.loc(fi, b), fi.qualname,
                                   "the include-peak flags do not default to False for single-year loads "
                                   "(months between the first and last twelve would retain peaks)")
-                ln = eng.eval(v.right, st)
+                ln = eng.eval(inline_single_defs(fi.node, v.right), st)
                 okl = isinstance(ln, Rat) and ln.equals(Rat.atom("self.end_month") + Rat.const(1))
                 if not okl:
                     raise AnalysisError(f"{fi.qualname}: length of the flag list not understood: {ast.unparse(v.right)}")
